@@ -156,15 +156,19 @@ func (fl *FileList) addSingleFile(info lineInfo) error {
 				return fmt.Errorf("device %s does not exist (source of %s)", source,
 					info.name)
 			}
-			if statbuf.Mode & unix.S_IFCHR > 0 {
+			switch statbuf.Mode & unix.S_IFMT {
+			case unix.S_IFCHR:
 				info.devtype = 'c'
-			} else if statbuf.Mode & unix.S_IFBLK > 0 {
+			case unix.S_IFBLK:
 				info.devtype = 'b'
-			} else {
+			default:
 				return fmt.Errorf("expected %s to be a device node", source)
 			}
-			info.major = uint32(statbuf.Rdev >> 8)
-			info.minor = uint32(statbuf.Rdev & 0xFF)
+			// Linux dev_t: major in bits 8-19 and 44-63, minor in bits 0-7 and 20-43
+			info.major = uint32(((statbuf.Rdev >> 32) & 0xfffff000) |
+				((statbuf.Rdev >> 8) & 0xfff))
+			info.minor = uint32(((statbuf.Rdev >> 12) & 0xffffff00) |
+				(statbuf.Rdev & 0xff))
 		}
 	default:
 		return fmt.Errorf("assertion error: unknown file type %d for %s", info.ltype,
